@@ -293,6 +293,11 @@ structure Ext where
   /-- lexical normalisation `_castPythonToLiteral(_castLexicalToPython(lex, dt), dt)` applied by
       `Literal.__new__` when `normalize` is on (identity where it does not apply) -/
   normFull : Option Str → Str → Str
+  /-- the `nsm` argument of `from_n3` as the list `nsm.namespaces()` of (prefix, namespace) pairs;
+      `none` = no manager given (from_n3 then makes a default `NamespaceManager(Graph())`, not modelled here) -/
+  nsm : Option (List (Str × Str)) := none
+  /-- `namespace_manager.normalizeUri(iri)`: a prefixed name or `<iri>` (C17; a parameter here) -/
+  qname : Str → Str := fun u => '<' :: u ++ ['>']
 
 /-- `Literal._literal_n3()` with the default arguments -/
 def litN3 (E : Ext) (x : Str) (d l : Option Str) : Str :=
@@ -313,6 +318,34 @@ def litN3 (E : Ext) (x : Str) (d l : Option Str) : Str :=
     match truthy d with
     | some dt => encoded ++ '^' :: '^' :: '<' :: dt ++ ['>']
     | none => encoded
+
+/-- `Literal._literal_n3(qname_callback=namespace_manager.normalizeUri)`:
+    `quoted_dt = qname_callback(datatype)`, or `<datatype>` if that is empty -/
+def litN3Q (E : Ext) (x : Str) (d l : Option Str) : Str :=
+  let encoded := quoteEncode x
+  let encoded :=
+    match d with
+    | some dt =>
+      if dt ∈ Tables.infNanTypes then
+        match E.floatKind x with
+        | .inf => replaceSub "Infinity".toList "INF".toList (replaceSub "inf".toList "INF".toList encoded)
+        | .nan => replaceSub "nan".toList "NaN".toList encoded
+        | .other => encoded
+      else encoded
+    | none => encoded
+  match truthy l with
+  | some lang => encoded ++ '@' :: lang
+  | none =>
+    match truthy d with
+    | some dt => encoded ++ '^' :: '^' :: (if E.qname dt = [] then '<' :: dt ++ ['>'] else E.qname dt)
+    | none => encoded
+
+/-- `t.n3(namespace_manager)` -/
+def n3Q (E : Ext) : Term → Option Str
+  | .node .bnode s => some ('_' :: ':' :: s)
+  | .node .var s => some ('?' :: s)
+  | .node _ s => if isValidUri s then some (E.qname s) else none
+  | .lit x d l => some (litN3Q E x d l)
 
 /-- `t.n3()`; `none` = `URIRef.n3` raises for an IRI with a character of `_invalid_uri_chars` -/
 def n3 (E : Ext) : Term → Option Str
@@ -478,6 +511,19 @@ inductive Rd
   | error (e : Err)
   deriving DecidableEq, Repr
 
+/-- `s.split(c, 1)`: the parts before and after the first `c` -/
+def splitFirst (c : Char) : Str → Str × Str
+  | [] => ([], [])
+  | x :: s => if x = c then ([], s) else ((x :: (splitFirst c s).1), (splitFirst c s).2)
+
+/-- `dict(pairs)[k]`: a later pair overrides an earlier one -/
+def dlookup (k : Str) : List (Str × Str) → Option Str
+  | [] => none
+  | (a, b) :: r =>
+    match dlookup k r with
+    | some v => some v
+    | none => if a = k then some b else none
+
 def Rd.ofExcept : Except Err Term → Rd
   | .ok t => .term t
   | .error e => .error e
@@ -497,7 +543,16 @@ def fromN3Node (E : Ext) (s : Str) : Rd :=
       | '[' :: _ => .unmodelled
       | '_' :: ':' :: r => .term (.node .bnode r)
       | '?' :: _ => Rd.ofExcept (mkVar s)
-      | _ => if ':' ∈ s then .unmodelled else .term (.node .bnode s)
+      | _ =>
+        if ':' ∈ s then
+          -- `prefix, last_part = s.split(":", 1); ns = dict(nsm.namespaces())[prefix]; Namespace(ns)[last_part]`
+          match E.nsm with
+          | none => .unmodelled
+          | some tbl =>
+            match dlookup (splitFirst ':' s).1 tbl with
+            | some ns => .term (.node .uri (ns ++ (splitFirst ':' s).2))
+            | none => .error .other
+        else .term (.node .bnode s)
 
 /-- the quoted-literal branch of `from_n3` after `value, rest = s.rsplit(quotes, 1)` and
     `value = value[len(quotes):]` -/
